@@ -3,9 +3,9 @@ from checklib import cbytes, cbool, clist, cpair, cN, copt
 
 ID = "C20"
 HARNESS = "c20"
-N_CASES = {"quick": 360, "thorough": 6000}
+N_CASES = {"quick": 300, "thorough": 6000}
 N_SEARCH = {"quick": 1, "thorough": 2}
-SHARD = 60
+SHARD = 50
 HAS_MODEL_OUT = True
 RULE = ("a real fbserver.Server per configuration (child process of the harness; whoami domain unset / set / set without "
         "trailing dot in mixed case, refuse-any on/off, miekg's default MsgAcceptFunc or accept-everything so that the "
